@@ -25,4 +25,6 @@ c_Orders == {"le"}
 c_PropNames == {"p1"}
 c_PropVals == {"v1", "v2"}
 c_Forbidden == {}
+c_ObjListsBig == {<<A>>, <<B, A>>}
+c_TypeSetBig == {"Int32"}
 ====
